@@ -2,6 +2,7 @@ package main
 
 import (
 	"fmt"
+	"go/constant"
 	"go/token"
 	"go/types"
 	"strings"
@@ -12,11 +13,11 @@ import (
 var serveExplain = map[string]string{
 	"C02": "Structural necessary conditions in the server's per-connection loop, decided for every path of the loop by exhaustive exploration of a finite abstraction (booleans, nil-ness, rule event bits): (R1) a request with 'Expect: 100-continue' whose body was not read (ExpectHandler / ContinueHandler rejection) is answered with Connection: close and never followed by another iteration; (R2) on every path from the handler to the next iteration the code has established, on the request that was actually served (not on a ctx swapped in by the timeout path), that there is no connection-backed body stream or that requestStream.fullyRead() is true - otherwise the close decision is true; the stream object is only released after that. (R3) a length-limited reader over the connection that is handed to a parser which may stop early (multipart pre-parse) is drained before success is reported; (R4) the flag behind fullyRead() for chunked bodies is raised only after the trailer section was read and its error examined, in every function that sets it. Not decided: the exact byte offset at which the next request starts for all inputs.",
 	"C10": "Structural necessary conditions of the keep-alive decision in the serve loop: (R1) the condition guarding SetConnectionClose depends (through phis, && / ||, and helper functions) on each documented source: DisableKeepalive, request and response Connection: close, MaxRequestsPerConn, CloseOnShutdown+stop, Expect/Continue rejection, unread streamed body; (R2) on every path: decision true => Connection: close is set on the response object that is written and no further iteration follows; decision false on a non-HTTP/1.1 request => Connection: keep-alive is set; (R3) the decision does not read per-request bookkeeping from a ctx that was swapped in after the handler (timeout path). Not decided: token/case handling of the Connection header value, client side reuse.",
-	"C11": "Structural necessary conditions of 'no state leaks between requests': (E7) every leaf field of Request, Response, RequestHeader, ResponseHeader, URI, Args, Cookie and RequestCtx is assigned (or known nil, or reset through its pointee) on every path of the type's reset method including callees, or is in a table of reasoned exemptions (scratch buffers, configuration, self pointers) - a newly added field is a violation until reset or exempted; (R-loop) every variable of the serve loop that survives an iteration is re-assigned before it is read in a later iteration on every path, or the loop provably ends; (R-reset) every path from the handler to the next iteration passes Request.Reset and Response.Reset. Not decided: that getters return exactly what the current request sent.",
-	"C14": "The sequence of ConnState values the serve loop reports, decided on every path of the loop as an automaton: StateActive only follows New/Idle, StateIdle only follows Active, the handler and the response write happen in Active, an iteration that continues ends in Idle, and StateActive is only reported on a path on which a read of at least one byte succeeded. Not decided: the New/Closed/Hijacked reports of the callers (worker pool, ServeConn) and cross-goroutine ordering.",
+	"C11": "Structural necessary conditions of 'no state leaks between requests': (E7) every leaf field of Request, Response, RequestHeader, ResponseHeader, URI, Args, Cookie and RequestCtx is assigned (or known nil, or reset through its pointee) on every path of the type's reset method including callees, or is in a table of reasoned exemptions (scratch buffers, configuration, self pointers) - a newly added field is a violation until reset or exempted; (R-loop) every variable of the serve loop that survives an iteration is re-assigned before it is read in a later iteration on every path, or the loop provably ends; (R-reset) every path from the handler to the next iteration passes Request.Reset and Response.Reset; (R-ctx) every field of RequestCtx that a handler can set through an exported method and that the serve loop reads (hijack handler, no-response switch, timeout response) is cleared, found zero, or left behind with a replaced ctx on every path to the next request - neither Request.Reset nor Response.Reset touches them. Not decided: that getters return exactly what the current request sent.",
+	"C14": "The sequence of ConnState values the serve loop reports, decided on every path of the loop as an automaton: StateActive only follows New/Idle, StateIdle only follows Active, the handler and the response write happen in Active, an iteration that continues ends in Idle, and StateActive is only reported on a path on which a read of at least one byte succeeded; (R3) every function that runs the serve loop itself and reports states (ServeConn) reports StateNew before serving and, on every path to its return after serving, exactly one terminal state - StateHijacked exactly when the loop returned errHijacked, StateClosed otherwise. Not decided: the reports made by the worker pool (C13.R2 decides its terminal action) and cross-goroutine ordering.",
 	"C15": "Structural necessary conditions of graceful shutdown inside the serve loop, on every path: the per-connection idle marker is zero while the handler runs (so Shutdown's idle closer cannot close a busy connection), it is set non-zero after the response before the connection waits for the next request, the stop flag is tested after every response, and (R5) a response that was written into the connection writer is flushed before the writer is dropped whenever the serve function ends with a nil result (shutdown, client stopped sending) - so no answered request loses its response on a graceful end. Not decided: Shutdown's own listener/poll loop, liveness, interleavings.",
-	"C16": "Structural necessary conditions for timed-out handlers, on every path of the serve loop's timeoutResponse != nil branch: the response is written from a freshly acquired ctx into which the stored response was copied (R1); the timed-out ctx is never released to the pool by the loop (R2); no per-request field the loop stored on the old ctx is read from the fresh one (R3). Not decided: what the late handler does with the old ctx, scheduling.",
-	"C17": "Structural necessary conditions of connection hijacking, on every path: the response is written and flushed before the hand-off unless HijackSetNoResponse is in effect (R1); after 'go hijackConnHandler' the serve function performs no I/O on the connection and releases neither ctx nor the handed-over reader (R3); it returns errHijacked exactly on hand-off paths (R4); hijackConnHandler closes the connection after the user's handler unless KeepHijackedConns and releases the ctx (R5). Not decided: byte-exact hand-over of buffered data, callers' reaction to errHijacked.",
+	"C16": "Structural necessary conditions for timed-out handlers, on every path of the serve loop's timeoutResponse != nil branch: the response is written from a freshly acquired ctx into which the stored response was copied (R1); the timed-out ctx is never released to the pool by the loop (R2); no per-request field the loop stored on the old ctx is read from the fresh one (R3); (R6) the concurrency slot a timeout wrapper takes from Server.concurrencyCh is taken without blocking (429 otherwise), and it is given back only by code that has run the wrapped handler to its end - in the goroutine that calls it, after the call - exactly once; never by the wrapper's own frame, which returns when the timeout fires while the handler still runs. Not decided: what the late handler does with the old ctx, scheduling.",
+	"C17": "Structural necessary conditions of connection hijacking, on every path: the response is written and flushed before the hand-off unless HijackSetNoResponse is in effect (R1); after 'go hijackConnHandler' the serve function performs no I/O on the connection and releases neither ctx nor the handed-over reader (R3); it returns errHijacked exactly on hand-off paths (R4); hijackConnHandler closes the connection after the user's handler unless KeepHijackedConns and releases the ctx (R5); hijack state a handler put on the ctx without hijacking does not survive into a later request of the connection (R6). Not decided: byte-exact hand-over of buffered data, callers' reaction to errHijacked.",
 }
 
 func init() {
@@ -30,8 +31,15 @@ func init() {
 			if id == "C11" {
 				resetCoverageRule(p, r)
 			}
+			if id == "C11" || id == "C17" {
+				r.Floor("R-ctx", "handler-settable ctx fields read by the serve loop", p.serveLoop(id).counts["R-ctx handler-settable ctx fields read by the serve loop"], 3)
+			}
 			if id == "C16" {
 				timeoutProducerRule(p, r, "C16")
+				timeoutSemaphoreRule(p, r)
+			}
+			if id == "C14" {
+				connStateCallersRule(p, r)
 			}
 			if id == "C02" {
 				limitedReaderDrainRule(p, r)
@@ -217,10 +225,11 @@ func resetExemptReason(typ, fp string) string {
 }
 
 // timeoutProducerRule: the functions that install RequestCtx.timeoutResponse.
-//   C16.R4: the installed response is a freshly allocated object filled by CopyTo (a private copy,
-//           not the caller's pointer, which the caller may go on mutating);
-//   C03.R4b: it gets SkipBody = true under IsHead() of the timed-out request, because the serve loop
-//           writes it from a fresh ctx that no longer knows the request method.
+//
+//	C16.R4: the installed response is a freshly allocated object filled by CopyTo (a private copy,
+//	        not the caller's pointer, which the caller may go on mutating);
+//	C03.R4b: it gets SkipBody = true under IsHead() of the timed-out request, because the serve loop
+//	        writes it from a fresh ctx that no longer knows the request method.
 func timeoutProducerRule(p *Prog, r *Report, prop string) {
 	fCopyTo := p.Func("(*Response).CopyTo")
 	fIsHead := p.Func("(*RequestCtx).IsHead")
@@ -476,4 +485,259 @@ func streamConsumedRule(p *Prog, r *Report) {
 		}
 	}
 	r.Floor("R4", "stores raising a consumption flag of requestStream", n, 1)
+}
+
+// C14.R3: callers of the serve loop that report connection states themselves.
+func connStateCallersRule(p *Prog, r *Report) {
+	loop, _, _, why := findServeLoop(p)
+	if loop == nil {
+		r.Undecided("R3", "serve loop", why)
+		return
+	}
+	setState := p.Func("(*Server).setState")
+	if setState == nil {
+		r.Undecided("R3", "(*Server).setState", "not found")
+		return
+	}
+	consts := map[string]int64{}
+	for _, name := range []string{"StateNew", "StateHijacked", "StateClosed"} {
+		if v, ok := constOfObj(p.byPath[rootPkg].Types, name); ok {
+			if k, ok := constant.Int64Val(v); ok {
+				consts[name] = k
+			}
+		}
+	}
+	if len(consts) != 3 {
+		r.Undecided("R3", "ConnState constants", "not found")
+		return
+	}
+	n := 0
+	for _, fn := range p.funcsIn("") {
+		if fn == loop {
+			continue
+		}
+		var serve *ssa.Call
+		reports := false
+		allCalls(fn, func(b *ssa.BasicBlock, c ssa.CallInstruction) {
+			if cv, ok := c.(*ssa.Call); ok && isCallTo(c, loop) {
+				serve = cv
+			}
+			if isCallTo(c, setState) {
+				reports = true
+			}
+		})
+		if serve == nil || !reports {
+			continue
+		}
+		n++
+		const (
+			bNew uint64 = 1 << iota
+			bServed
+			bHij
+			bClosed
+		)
+		bad, nret := 0, 0
+		var wit []string
+		detail := ""
+		fail := func(x *Explorer, st *State, what string) {
+			bad++
+			if wit == nil {
+				wit = x.Path(st)
+				detail = what
+			}
+		}
+		x := NewExplorer(p, fn, Hooks{
+			Instr: func(x *Explorer, st *State, in ssa.Instruction) {
+				c, ok := in.(ssa.CallInstruction)
+				if !ok {
+					return
+				}
+				switch {
+				case in == ssa.Instruction(serve):
+					if !st.Has(bNew) {
+						fail(x, st, "the serve loop runs before StateNew was reported")
+					}
+					st.Set(bServed)
+				case isCallTo(c, setState) && len(c.Common().Args) == 3:
+					k, okk := constInt(c.Common().Args[2])
+					if !okk {
+						return
+					}
+					switch k {
+					case consts["StateNew"]:
+						st.Set(bNew)
+					case consts["StateHijacked"], consts["StateClosed"]:
+						if st.Has(bHij) || st.Has(bClosed) {
+							fail(x, st, "a second terminal state is reported")
+						}
+						if k == consts["StateHijacked"] {
+							st.Set(bHij)
+						} else {
+							st.Set(bClosed)
+						}
+					}
+				}
+			},
+			Exit: func(x *Explorer, st *State, ret *ssa.Return, pan *ssa.Panic) {
+				if ret == nil || !st.Has(bServed) {
+					return
+				}
+				nret++
+				hij := x.resolvesErrHijacked(st, serve)
+				switch {
+				case !st.Has(bHij) && !st.Has(bClosed):
+					fail(x, st, "returns after serving without reporting StateClosed or StateHijacked")
+				case st.Has(bHij) && hij == False:
+					fail(x, st, "StateHijacked reported although the loop did not return errHijacked")
+				case st.Has(bClosed) && hij == True:
+					fail(x, st, "StateClosed reported for a hijacked connection")
+				}
+			},
+		})
+		x.TrackAll = true
+		x.Filter = noIntFilter
+		for _, b := range fn.Blocks {
+			for _, in := range b.Instrs {
+				if bo, ok := in.(*ssa.BinOp); ok && (bo.Op == token.EQL || bo.Op == token.NEQ) && (globalOf(bo.X) == "errHijacked" || globalOf(bo.Y) == "errHijacked") {
+					x.Track(bo)
+				}
+			}
+		}
+		x.Run(nil)
+		if x.Aborted {
+			r.Undecided("R3", funcName(fn), "state budget exhausted")
+			continue
+		}
+		r.Check("R3", fmt.Sprintf("%s: StateNew before serving and exactly one terminal state (Hijacked iff errHijacked) on every path after it", funcName(fn)), bad == 0 && nret > 0, p.Pos(serve.Pos()),
+			fmt.Sprintf("%s (%d of %d explored returns): a ConnState hook that tracks connections never learns that this one is gone", detail, bad, nret), wit...)
+	}
+	r.Floor("R3", "functions that run the serve loop and report states", n, 1)
+}
+
+// C16.R6: the handler-concurrency semaphore of the timeout wrappers.
+func timeoutSemaphoreRule(p *Prog, r *Report) {
+	// does v denote the channel stored in Server.concurrencyCh ?
+	var isSem func(v ssa.Value, fn *ssa.Function, d int) bool
+	isSem = func(v ssa.Value, fn *ssa.Function, d int) bool {
+		if d > 6 || v == nil {
+			return false
+		}
+		switch w := v.(type) {
+		case *ssa.UnOp:
+			if w.Op != token.MUL {
+				return false
+			}
+			if _, fv := fieldOfAddr(w.X); fv != nil {
+				return fv.Name() == "concurrencyCh"
+			}
+			switch a := w.X.(type) {
+			case *ssa.Alloc:
+				for _, ref := range *a.Referrers() {
+					if st, ok := ref.(*ssa.Store); ok && st.Addr == ssa.Value(a) && isSem(st.Val, fn, d+1) {
+						return true
+					}
+				}
+			case *ssa.FreeVar:
+				par := fn.Parent()
+				if par == nil {
+					return false
+				}
+				idx := -1
+				for i, fv := range fn.FreeVars {
+					if fv == a {
+						idx = i
+					}
+				}
+				for _, b := range par.Blocks {
+					for _, in := range b.Instrs {
+						if mc, ok := in.(*ssa.MakeClosure); ok && mc.Fn == ssa.Value(fn) && idx >= 0 && idx < len(mc.Bindings) {
+							// the binding is the address of the captured variable
+							if al, ok := mc.Bindings[idx].(*ssa.Alloc); ok {
+								for _, ref := range *al.Referrers() {
+									if st, ok := ref.(*ssa.Store); ok && st.Addr == ssa.Value(al) && isSem(st.Val, par, d+1) {
+										return true
+									}
+								}
+							}
+							if fv2, ok := mc.Bindings[idx].(*ssa.FreeVar); ok {
+								return isSem(&ssa.UnOp{Op: token.MUL, X: fv2}, par, d+1)
+							}
+						}
+					}
+				}
+			}
+		case *ssa.Phi:
+			for _, e := range w.Edges {
+				if isSem(e, fn, d+1) {
+					return true
+				}
+			}
+		}
+		return false
+	}
+	isHandlerCall := func(i ssa.Instruction) bool {
+		c, ok := i.(*ssa.Call)
+		if !ok || c.Call.StaticCallee() != nil || c.Call.IsInvoke() {
+			return false
+		}
+		// a dynamic call of a captured RequestHandler value
+		return strings.HasSuffix(c.Call.Value.Type().String(), "RequestHandler")
+	}
+	nacq, nrel := 0, 0
+	for _, fn := range p.funcsIn("") {
+		for _, b := range fn.Blocks {
+			for _, in := range b.Instrs {
+				switch w := in.(type) {
+				case *ssa.Select:
+					for _, st := range w.States {
+						if st.Dir == types.SendOnly && isSem(st.Chan, fn, 0) {
+							nacq++
+							r.Check("R6", fmt.Sprintf("%s: the handler slot is taken without blocking", funcName(fn)), !w.Blocking, p.Pos(w.Pos()),
+								"the wrapper waits for a slot instead of answering 429: excess calls queue up behind running handlers")
+							// on the acquired path a goroutine is started before the wrapper returns
+							hit, path := reachAvoiding(fn, in, isReturn, func(i ssa.Instruction) bool {
+								if _, ok := i.(*ssa.Go); ok {
+									return true
+								}
+								// the branch that did not get the slot answers and returns: recognised by the 429 reply
+								if c, ok := i.(ssa.CallInstruction); ok {
+									for _, a := range c.Common().Args {
+										if k, ok := constInt(a); ok && k == 429 {
+											return true
+										}
+									}
+								}
+								return false
+							}, nil)
+							r.Check("R6", fmt.Sprintf("%s: after taking a slot the wrapper starts the goroutine that will give it back (or answered 429 without one)", funcName(fn)), hit == nil, p.Pos(w.Pos()),
+								"a return of the wrapper is reachable with the slot taken and no goroutine started: the slot is never given back", blocksString(p, path)...)
+						}
+					}
+				case *ssa.UnOp:
+					if w.Op != token.ARROW || !isSem(w.X, fn, 0) {
+						continue
+					}
+					nrel++
+					// the release sits in code that has run the wrapped handler first
+					hit, path := reachAvoiding(fn, nil, func(i ssa.Instruction) bool { return i == ssa.Instruction(w) }, isHandlerCall, nil)
+					r.Check("R6", fmt.Sprintf("%s: the handler slot is given back only after the wrapped handler returned", funcName(fn)), hit == nil, p.Pos(w.Pos()),
+						"the receive that frees the slot is reachable without the wrapped handler having been called in this function: the slot is freed while the handler may still run (a timed-out handler is no longer counted, so more than Concurrency of them run and excess calls are not answered 429)", blocksString(p, path)...)
+					// and exactly once: no second release on any path after it
+					h2, _ := reachAvoiding(fn, w, func(i ssa.Instruction) bool {
+						u, ok := i.(*ssa.UnOp)
+						return ok && u.Op == token.ARROW && isSem(u.X, fn, 0)
+					}, nil, nil)
+					r.Check("R6", fmt.Sprintf("%s: the handler slot is given back at most once", funcName(fn)), h2 == nil, p.Pos(w.Pos()), "a second receive from the semaphore follows the first")
+					// every path of the releasing function reaches the release
+					h3, p3 := reachAvoiding(fn, nil, isReturn, func(i ssa.Instruction) bool {
+						u, ok := i.(*ssa.UnOp)
+						return ok && u.Op == token.ARROW && isSem(u.X, fn, 0)
+					}, nil)
+					r.Check("R6", fmt.Sprintf("%s: every path of the goroutine gives the slot back", funcName(fn)), h3 == nil, p.Pos(w.Pos()), "a return is reachable without the release", blocksString(p, p3)...)
+				}
+			}
+		}
+	}
+	r.Floor("R6", "non-blocking acquisitions of Server.concurrencyCh", nacq, 1)
+	r.Floor("R6", "releases of Server.concurrencyCh", nrel, 1)
 }
